@@ -2,6 +2,7 @@
 shared executor 'unprotect a stored record with offline key material'."""
 from __future__ import annotations
 
+import contextlib
 import hashlib
 import typing as t
 
@@ -125,15 +126,34 @@ def catalogue(tier: str) -> t.List[Base]:
     return out
 
 
-def unprotect_stored(base: Base, stored: bytes, with_key: bool = True, line_limit: int = 0, flavour: str = "sync", kdf_limit: int = 300, then_valid: bool = False):
+def with_names(base: Base, domain: str, forest: str) -> bytes:
+    """The same record with other domain / forest names in its key identifier (the names are not authenticated: it still decrypts)."""
+    p = cms.parse_blob(base.blob)
+    kid = dict(p["key_identifier"], domain=domain, forest=forest)
+    in_env = "/env" in base.name
+    return cms.build_blob(gkdi.pack_key_identifier(kid), p["sid"], p["enc_cek"], p["gcm_nonce"], p["enc_content"], in_envelope=in_env)
+
+
+def unprotect_stored(base: Base, stored: bytes, with_key: bool = True, line_limit: int = 0, flavour: str = "sync", kdf_limit: int = 300, then_valid: bool = False,
+                     bad_load_first: t.Optional[dict] = None, cpu_limit: float = 0.0):
     """Real ncrypt_unprotect_secret on ``stored`` with offline key material and no reachable DC.
     -> (Outcome, world, counters); with ``then_valid`` the undamaged blob is unprotected afterwards on the SAME cache and that
     outcome is returned as counters["after"]."""
     world = W.World(len(stored))
     counters = {"kdf": 0, "lines": 0}
     with world.installed(patch_entropy=False):
-        cache = offline.new_cache(base.rk) if with_key else offline.new_cache()
-        with common.KdfBudget(kdf_limit) as kb:
+        cache = offline.new_cache(base.rk) if (with_key and not bad_load_first) else offline.new_cache()
+        if bad_load_first:
+            # an earlier load_key for the same root key id with unusable parameters (it raises); the good parameters may or may not follow
+            counters["bad_load"] = drive.classify(lambda: cache.load_key(key=base.rk.key, root_key_id=base.rk.root_key_id, version=1,
+                                                                        kdf_algorithm=bad_load_first.get("kdf_algorithm", "SP800_108_CTR_HMAC"),
+                                                                        kdf_parameters=bytes.fromhex(bad_load_first["kdf_parameters"]) if bad_load_first.get("kdf_parameters") is not None else None,
+                                                                        secret_algorithm=bad_load_first.get("secret_algorithm", "DH"),
+                                                                        private_key_length=512, public_key_length=2048))
+            if bad_load_first.get("then_good"):
+                offline.load_into(cache, base.rk)
+        cpu = common.CpuBudget(cpu_limit) if cpu_limit else contextlib.nullcontext()
+        with cpu, common.KdfBudget(kdf_limit) as kb:
             if line_limit:
                 with common.LineBudget(line_limit) as lb:
                     out = drive.classify(lambda: offline.call_api(world, flavour, "unprotect", stored, cache=cache))
